@@ -8,6 +8,7 @@
 package tcbox
 
 import (
+	"reflect"
 	"fmt"
 	"sort"
 	"strconv"
@@ -150,6 +151,10 @@ func (t *Ty) String() string {
 type Env struct {
 	ptrs map[string]any
 	N    int // counts builds: alternates between representations where the library offers several
+	// slices built so far in this case: a later slice whose contents are a prefix of an earlier one is (every other time)
+	// handed out as a VIEW of it - same backing array, same first element, different length (seed C09-7: an identity
+	// fast path in eq.Seq placed before the length check)
+	slices []any
 }
 
 func NewEnv() *Env { return &Env{ptrs: map[string]any{}} }
@@ -176,11 +181,19 @@ func zoneOf(z int) *time.Location {
 	return time.FixedZone("z"+strconv.Itoa(z), z*3600)
 }
 
-func typedSlice[T any](v *common.Sx, f func(*common.Sx) T, mk func(n int) []T) []T {
+func typedSlice[T any](env *Env, v *common.Sx, f func(*common.Sx) T, mk func(n int) []T) []T {
 	out := mk(len(v.List) - 1)
 	for i, x := range v.List[1:] {
 		out[i] = f(x)
 	}
+	if len(out) > 0 && env.N%2 == 0 {
+		for _, p := range env.slices {
+			if prev, ok := p.([]T); ok && len(prev) > len(out) && reflect.DeepEqual(prev[:len(out)], out) {
+				return prev[:len(out):len(out)]
+			}
+		}
+	}
+	env.slices = append(env.slices, out)
 	return out
 }
 
@@ -221,7 +234,7 @@ func Build(t *Ty, v *common.Sx, env *Env) any {
 		if !v.IsL {
 			return []byte(nil)
 		}
-		return typedSlice(v, func(x *common.Sx) byte { return byte(atoi(x.Atom)) }, func(n int) []byte { return make([]byte, n, n+env.N%3) })
+		return typedSlice(env, v, func(x *common.Sx) byte { return byte(atoi(x.Atom)) }, func(n int) []byte { return make([]byte, n, n+env.N%3) })
 	case "time":
 		return time.Unix(0, int64(atoi(v.List[1].Atom))).In(zoneOf(atoi(v.List[2].Atom)))
 	case "option":
@@ -247,34 +260,34 @@ func Build(t *Ty, v *common.Sx, env *Env) any {
 			if !v.IsL {
 				return fp.Seq[int](nil)
 			}
-			return fp.Seq[int](typedSlice(v, func(x *common.Sx) int { return atoi(x.Atom) }, func(n int) []int { return make([]int, n, n+env.N%3) }))
+			return fp.Seq[int](typedSlice(env, v, func(x *common.Sx) int { return atoi(x.Atom) }, func(n int) []int { return make([]int, n, n+env.N%3) }))
 		case "string":
 			if !v.IsL {
 				return fp.Seq[string](nil)
 			}
-			return fp.Seq[string](typedSlice(v, strOf, func(n int) []string { return make([]string, n, n+env.N%3) }))
+			return fp.Seq[string](typedSlice(env, v, strOf, func(n int) []string { return make([]string, n, n+env.N%3) }))
 		}
 		if !v.IsL {
 			return fp.Seq[any](nil)
 		}
-		return fp.Seq[any](typedSlice(v, func(x *common.Sx) any { return Build(t.E[0], x, env) }, func(n int) []any { return make([]any, n, n+env.N%3) }))
+		return fp.Seq[any](typedSlice(env, v, func(x *common.Sx) any { return Build(t.E[0], x, env) }, func(n int) []any { return make([]any, n, n+env.N%3) }))
 	case "slice":
 		switch t.Leaf() {
 		case "int":
 			if !v.IsL {
 				return []int(nil)
 			}
-			return typedSlice(v, func(x *common.Sx) int { return atoi(x.Atom) }, func(n int) []int { return make([]int, n, n+env.N%3) })
+			return typedSlice(env, v, func(x *common.Sx) int { return atoi(x.Atom) }, func(n int) []int { return make([]int, n, n+env.N%3) })
 		case "string":
 			if !v.IsL {
 				return []string(nil)
 			}
-			return typedSlice(v, strOf, func(n int) []string { return make([]string, n, n+env.N%3) })
+			return typedSlice(env, v, strOf, func(n int) []string { return make([]string, n, n+env.N%3) })
 		}
 		if !v.IsL {
 			return []any(nil)
 		}
-		return typedSlice(v, func(x *common.Sx) any { return Build(t.E[0], x, env) }, func(n int) []any { return make([]any, n, n+env.N%3) })
+		return typedSlice(env, v, func(x *common.Sx) any { return Build(t.E[0], x, env) }, func(n int) []any { return make([]any, n, n+env.N%3) })
 	case "ptr":
 		switch t.Leaf() {
 		case "int":
